@@ -353,7 +353,7 @@ Print Assumptions C20_module_resolved_complete.
 Theorem C20_load_registers_named :
   forall lower world s n imp initf o s', perm_oracle o -> wf_st lower s ->
   owner_load lower world s n imp initf o = (s', Ok 0%N) ->
-  exists c, lower (cname c) = lower n /\ Permutation (s_cbs s') (s_cbs s ++ [c]).
+  exists c, lower (cname c) = lower (strip_py n) /\ Permutation (s_cbs s') (s_cbs s ++ [c]).
 Proof. exact load_registers_named. Qed.
 Print Assumptions C20_load_registers_named.
 
@@ -404,3 +404,13 @@ Theorem C20_alive_example :
                                                   Unload nBeta true]))) = [0%N; 5%N; 1%N].
 Proof. exact history6_die_log. Qed.
 Print Assumptions C20_alive_example.
+
+(* non-vacuity for imp = 3 (the old module's reload() hook raises; was finding C20.F26) and for the
+   `.py` suffix of Owner.load: `load Alpha.py` registers Alpha; the failing hook keeps it, untouched *)
+Theorem C20_reload_hook_example :
+  let s := steps lower_ascii w_dot st0 [Boot nOwner id_oracle; Load nAlphaPy 0 false id_oracle] in
+  map cname (s_cbs s) = [nOwner; nAlpha] /\
+  let '(s', r) := owner_reload lower_ascii w_dot s nAlpha 3 false false id_oracle in
+  r = Raise OtherError /\ map cname (s_cbs s') = [nOwner; nAlpha] /\ s_dead s' = [].
+Proof. exact reload_hook_example. Qed.
+Print Assumptions C20_reload_hook_example.
